@@ -11,7 +11,7 @@ package eth
 
 // C17: an error for any string containing a non-hex character; the exact
 // value for every valid spelling of a 64-bit quantity.
-//@ func decode props=C17
+//@ func decode props=C17,C07
 //@   ensures [err-if-nonhex] result1 == nil ==> allhex(b)
 //@   ensures [value] result1 == nil ==> len(b) <= 16 && result0 == hexval(b, len(b))
 //@   ensures [total] allhex(b) && len(b) <= 16 ==> result1 == nil
@@ -20,7 +20,7 @@ package eth
 //@   loop#0 invariant res == hexval(b, rangepos)
 
 // JSON tokens: total (never panic on any token), exact on success.
-//@ func (*Uint64).UnmarshalJSON props=C17
+//@ func (*Uint64).UnmarshalJSON props=C17,C07
 //@   ensures [short] len(data) < 4 ==> result != nil
 //@   ensures [value] result == nil ==> len(data) >= 4 && len(data) <= 20 && uint64(*hn) == hexval(string(data[3:len(data)-1]), len(data)-4)
 //@   ensures [err-if-nonhex] result == nil ==> allhex(string(data[3:len(data)-1]))
@@ -31,16 +31,17 @@ package eth
 //@   ensures [value] result == nil ==> len(data) >= 4 && len(data) <= 20 && uint8(*b) == uint8(old(hexval(string(data[3:len(data)-1]), len(data)-4)))
 //@   ensures [err-if-nonhex] result == nil ==> old(allhex(string(data[3:len(data)-1])))
 
-//@ func (*Bytes).Write props=C17
+//@ func (*Bytes).Write props=C17,C08,C18
 //@   requires len(p) == 0 || base(p) != base(*hb)
 //@   ensures [len] len(*hb) == len(p) && result0 == len(p) && result1 == nil
 //@   ensures [bytes] forall k int :: 0 <= k && k < len(p) ==> (*hb)[k] == old(p[k])
+//@   ensures [copy-not-alias] len(p) == 0 || base(*hb) != base(p)
 
 // Byte strings: an odd number of digits or a non-hex digit is an error; on
 // success the destination holds exactly the decoded bytes (len == decoded
 // length, every byte overwritten: nothing of a previous value remains).
 //@ spec bytehex(d []byte, i int) byte = (byte(nib(d[i])) << 4) | byte(nib(d[i+1]))
-//@ func (*Bytes).UnmarshalJSON props=C17
+//@ func (*Bytes).UnmarshalJSON props=C17,C10,C07
 //@   requires len(data) < 4 || base(data) != base(*hb)
 //@   ensures [short] len(data) < 4 ==> result != nil
 //@   ensures [odd] result == nil ==> len(data) >= 4 && (len(data)-4) % 2 == 0
@@ -52,7 +53,7 @@ package eth
 // C08/C04: the logs of a transaction form a set keyed by log index: Add keeps
 // every log already present, in place, and appends the new one exactly when
 // no log with its index is present (whatever order the source delivers in).
-//@ func (*Logs).Add props=C08,C04,C01,C02
+//@ func (*Logs).Add props=C08,C04,C01,C02,C12
 //@   requires ls != nil && other != nil
 //@   ensures [kept] len(*ls) >= old(len(*ls)) && (forall k int :: 0 <= k && k < old(len(*ls)) ==> (*ls)[k].Idx == old((*ls)[k].Idx))
 //@   ensures [no-duplicate] (exists k int :: 0 <= k && k < old(len(*ls)) && old((*ls)[k].Idx) == old((*other).Idx)) ==> len(*ls) == old(len(*ls))
